@@ -33,6 +33,10 @@ func (o *OCIDir) ManifestDelete(ctx context.Context, r ref.Ref, opts ...scheme.M
 	if r.Digest == "" {
 		return fmt.Errorf("digest required to delete manifest, reference %s%.0w", r.CommonName(), errs.ErrMissingDigest)
 	}
+	// the digest becomes a file name below, it must be a well formed digest
+	if err := digest.Digest(r.Digest).Validate(); err != nil {
+		return fmt.Errorf("invalid digest to delete manifest, reference %s: %w", r.CommonName(), err)
+	}
 
 	mc := scheme.ManifestConfig{}
 	for _, opt := range opts {
